@@ -54,6 +54,12 @@ class VwVars:
         self.b = b
         self._p = "private"
 
+class VwVarsDyn:
+    """vars-only (no hints, no slots, no constructor parameters): the attribute set and order
+    differ from instance to instance"""
+    def __init__(self):
+        pass
+
 class VwMap(collections.abc.Mapping):
     def __init__(self, pairs):
         self._d = dict(pairs)
@@ -78,7 +84,7 @@ class VwSame:
         self.y = b
 '''
 
-CLASSES = ["VwDC", "VwNT", "VwNT1", "VwPlain", "VwPlainCV", "VwSlots", "VwVars", "vw0same", "vw1same"]
+CLASSES = ["VwDC", "VwNT", "VwNT1", "VwPlain", "VwPlainCV", "VwSlots", "VwVars", "VwVarsDyn", "VwVarsDyn", "vw0same", "vw1same"]
 # expected public (field, attribute) names per class, in order
 PUBLIC = {
     "VwDC": ["a", "b"], "VwNT": ["first", "second"], "VwNT1": ["only"], "VwPlain": ["a", "b"], "VwPlainCV": ["a"],
@@ -230,10 +236,21 @@ class C18(PropBase):
             cname = spec["cls"]
             cls = {"vw0same": m0.VwSame, "vw1same": m1.VwSame}.get(cname) or getattr(m0, cname)
             a, b = V(spec["a"]), V(spec["b"])
-            x = cls(a) if cname == "VwNT1" else cls(a, b)
-            names = PUBLIC[cname]
-            vals = {"a": a, "b": b, "first": a, "second": b, "only": a, "z": a, "y": b}
-            items = [(nm, vals[nm]) for nm in names]
+            if cname == "VwVarsDyn":
+                x = cls()
+                order = [("b", b), ("a", a)] if isinstance(a, str) else ([("a", a)] if b is None else [("a", a), ("extra", 1), ("b", b)])
+                for k, v in order:
+                    setattr(x, k, v)
+                x._hidden = "private"
+            else:
+                x = cls(a) if cname == "VwNT1" else cls(a, b)
+            if cname == "VwVarsDyn":
+                # the model: the public instance attributes, in the instance's own order
+                items = [(k, v) for k, v in vars(x).items() if not k.startswith("_")]
+            else:
+                names = PUBLIC[cname]
+                vals = {"a": a, "b": b, "first": a, "second": b, "only": a, "z": a, "y": b}
+                items = [(nm, vals[nm]) for nm in names]
             return x, items, [v for _, v in items], {"reiterable": True, "struct": True}
         if kind in ("list", "tuple", "deque", "set", "frozenset"):
             elems = [V(e) for e in spec["items"]]
@@ -321,7 +338,7 @@ class C18(PropBase):
         spec = step.get("x", {})
         if spec.get("x") in ("gen", "iter", "listiter", "mapiter"):
             return True
-        if spec.get("cls") in ("vw0same", "vw1same"):
+        if spec.get("cls") in ("vw0same", "vw1same", "VwVarsDyn"):
             return True
         return sess.fault_fired_before
 
